@@ -186,7 +186,7 @@ pub fn scenarios() -> Vec<Scn> {
     v.push(comb_scn(c, two.clone(), None, Some(2), Some(3)));
     v.push(comb_scn(c, two.clone(), Some(1), if c == Comb::Merge || c == Comb::Zip { Some(2) } else { None }, Some(3)));
     v.push(comb_scn(c, two.clone(), Some(2), Some(1), Some(2)));
-    v.push(comb_scn(c, three.clone(), None, None, Some(2)));
+    v.push(comb_scn(c, three.clone(), None, Some(1), Some(2)));
   }
   v.push(comb_scn(Comb::SubjectTake, two.clone(), Some(2), Some(2), Some(3)));
   v.push(comb_scn(Comb::SubjectTake, two.clone(), Some(1), Some(2), Some(3)));
